@@ -132,6 +132,8 @@ func init() {
 				}
 			}
 		}
+		// every clock offset strictly inside the window agrees, whatever the server clock's sub-second phase
+		jobs = append(jobs, vx.Job{Scenario: "auth.window", Params: vx.P("transport", "direct"), Weight: 3}, vx.Job{Scenario: "auth.window", Params: vx.P("transport", "cdn"), Weight: 3})
 		// two handshakes at once (different users; the same session): each client can open its reply and holds
 		// the key of the session the server created - with memory points before unsynchronised writes
 		jobs = append(jobs, vx.Job{Scenario: "srv.join", Params: vx.P("conns", "0.1,1.1", "cap", "1", "mem", "1"), Bound: map[bool]int{true: 1, false: 2}[tier == "quick"], BudgetS: 100, Weight: 6},
